@@ -8,7 +8,7 @@ from ..loader import AnalysisError, norm, walk_shallow
 from ..cfg import build_cfg, node_calls
 from ..flow import TOP, NONE, TRUE, FALSE, valuations, truth, is_const, is_none
 from ..inter import Inter, InterFlow
-from ..util import callee_name, all_calls, arg, need, names_in, single_def
+from ..util import callee_name, all_calls, arg, need, names_in, single_def, assignments_to
 
 CROP = "xyzpy.gen.cropping"
 
@@ -358,6 +358,9 @@ def naming_rule(ctx, rid):
         if fnmatch.fnmatchcase(last.replace("@", "0"), res_pat) or fnmatch.fnmatchcase(last.replace("@", "0"), bat_pat) or rel[0] in ("results", "batches"):
             rr.bad(ctx.finding(rid, fi, c, "the path %s pairs a directory and a file template that no writer uses (writers: results/%s, batches/%s): this reader / writer looks at files that are never produced" % ("/".join(rel), t["RSLT_NM"], t["BTCH_NM"])),
                    "%s: %s" % (fi.qualname, "/".join(rel)))
+        elif "data_name" in norm(c) or "data_name" in " ".join(norm(v_) for nm_ in names_in(c) for _, v_ in assignments_to(fi, nm_) if v_ is not None):
+            rr.bad(ctx.finding(rid, fi, c, "`%s` places the farmer's data file inside the crop's own folder: that folder is what delete_all removes after a reap, so the data saved by the reap is deleted with the crop" % norm(c)[:60],
+                               construct="data-file-inside-crop"), "%s: data file location" % fi.qualname)
         else:
             raise AnalysisError("unrecognised crop path %s in %s" % ("/".join(rel), fi.qualname))
     return rr
